@@ -422,6 +422,45 @@ func RunRing(c RingCase) pbt.Outcome {
 				})
 			}
 			returns = "vals"
+		case "dolink":
+			// Do whose callback, at visit number N, links two OTHER nodes (x.Link(y)) - only when none of the four
+			// nodes the Link rewires is the Do receiver itself (container/ring leaves Do undefined if f changes *r;
+			// restructuring the rest of the ring during the iteration is defined and must behave identically)
+			a = mod(op.A, len(s.tr))
+			xi := mod(op.B, len(s.tr))
+			yi := mod(op.B+op.S+1, len(s.tr))
+			at := mod(op.N, 4)
+			if s.tr[a] == nil || s.tr[xi] == nil || s.tr[yi] == nil {
+				continue
+			}
+			labels.add("do:restructuring-callback")
+			desc = fmt.Sprintf("%s.Do(collect; at visit %d: %s.Link(%s) unless it rewires the receiver)", rIdxName(a), at, rIdxName(xi), rIdxName(yi))
+			t, r := s.tr[a], s.sr[a]
+			tx, ty, sx, sy := s.tr[xi], s.tr[yi], s.sr[xi], s.sr[yi]
+			limit := len(s.tr) + 2
+			tRun = func() {
+				t.Do(func(v any) {
+					if len(tVals) >= limit {
+						panic(doAbort{})
+					}
+					if len(tVals) == at && tx != t && ty != t && tx.Next() != t && ty.Prev() != t {
+						tx.Link(ty)
+					}
+					tVals = append(tVals, v)
+				})
+			}
+			sRun = func() {
+				r.Do(func(v any) {
+					if len(sVals) >= limit {
+						panic(doAbort{})
+					}
+					if len(sVals) == at && sx != r && sy != r && sx.Next() != r && sy.Prev() != r {
+						sx.Link(sy)
+					}
+					sVals = append(sVals, v)
+				})
+			}
+			returns = "vals"
 		default:
 			continue
 		}
@@ -430,7 +469,19 @@ func RunRing(c RingCase) pbt.Outcome {
 
 		tp, tPan := try(tRun)
 		sp, sPan := try(sRun)
-		if _, ab := sp.(doAbort); ab {
+		_, sAb := sp.(doAbort)
+		_, tAb := tp.(doAbort)
+		if sAb && tAb && op.K == "dolink" {
+			// the callback made the ring bypass the receiver: Do never returns on either side - agreed; the case ends here
+			labels.add("do:both-non-terminating(after restructuring)")
+			out.Labels = labels.l
+			out.Evals = executed
+			return out
+		}
+		if sAb && op.K == "dolink" {
+			return fail(step, "container/ring's Do does not terminate after this restructuring, lists' Do returned after visiting %v", tVals)
+		}
+		if sAb {
 			return fail(step, "HARNESS: container/ring Do exceeded the callback cap")
 		}
 		if _, ab := tp.(doAbort); ab {
@@ -596,7 +647,7 @@ var ringKinds = func() []string {
 	w := []struct {
 		k string
 		n int
-	}{{"new", 10}, {"zero", 3}, {"next", 4}, {"prev", 4}, {"move", 10}, {"link", 24}, {"unlink", 10}, {"len", 5}, {"do", 5}}
+	}{{"new", 10}, {"zero", 3}, {"next", 4}, {"prev", 4}, {"move", 10}, {"link", 24}, {"unlink", 10}, {"len", 5}, {"do", 5}, {"dolink", 4}}
 	var r []string
 	for _, x := range w {
 		for i := 0; i < x.n; i++ {
@@ -622,6 +673,11 @@ func genRing(t *rapid.T) RingCase {
 			if o.N < -2 { // fewer no-op counts, more small positive ones
 				o.N = (-o.N-2)%4 + 1
 			}
+		case "dolink":
+			o.A = rapid.IntRange(0, ringNodeCap-1).Draw(t, "a")
+			o.B = rapid.IntRange(0, ringNodeCap-1).Draw(t, "b")
+			o.S = rapid.IntRange(0, 5).Draw(t, "s")
+			o.N = rapid.IntRange(0, 3).Draw(t, "n")
 		case "link":
 			o.A = rapid.IntRange(0, ringNodeCap-1).Draw(t, "a")
 			o.B = rapid.IntRange(0, ringNodeCap-1).Draw(t, "b")
